@@ -1,6 +1,7 @@
 package props
 
 import (
+	"crypto/tls"
 	"encoding/json"
 	"fmt"
 	"strconv"
@@ -28,6 +29,7 @@ type c13Case struct {
 	Reconn   []int        `json:"reconnect,omitempty"`
 	Choices  []int        `json:"choices,omitempty"`
 	History  [][]string   `json:"history,omitempty"`
+	TLS      bool         `json:"tls,omitempty"` // state: connections arrive over the TLS port
 }
 
 // c13Model is the per-client model of connection-scoped state.
@@ -218,7 +220,7 @@ type c13St struct {
 	auth bool
 }
 
-func c13StateProbe(history [][]string, password bool) (st c13St, clause, detail string) {
+func c13StateProbe(history [][]string, password, overTLS bool) (st c13St, clause, detail string) {
 	d := srv.NewDouble()
 	s := srv.NewServer(d)
 	if password {
@@ -248,7 +250,11 @@ func c13StateProbe(history [][]string, password bool) (st c13St, clause, detail 
 		}
 		in = append(in, grammar.Encode([]string{"GET", "probe"})...)
 		before := len(d.Calls)
-		out := srv.RunConn(s, seq.NewConn(seq.Script{Input: in}))
+		var tlsState *tls.ConnectionState
+		if overTLS {
+			tlsState = &tls.ConnectionState{HandshakeComplete: true, Version: tls.VersionTLS13}
+		}
+		out := srv.RunConnTLS(s, seq.NewConn(seq.Script{Input: in}), tlsState)
 		if cl, dt := crashClause(out); cl != "" {
 			return st, cl, dt
 		}
@@ -312,7 +318,8 @@ func c13StateProbe(history [][]string, password bool) (st c13St, clause, detail 
 
 func c13State(c *fw.Ctx) {
 	events := [][]string{{"SELECT", "0"}, {"SELECT", "1"}, {"SELECT", "7"}, {"SELECT", "abc"}, {"GET", "k"}, {"AUTH", c13Pass}, {"AUTH", "wrong"}, {"RECONNECT"}}
-	for _, password := range []bool{false, true} {
+	for _, variant := range []int{0, 1, 2, 3} {
+		password, overTLS := variant&1 == 1, variant&2 == 2
 		if !c.Mine() {
 			continue
 		}
@@ -326,12 +333,12 @@ func c13State(c *fw.Ctx) {
 					hist := append(append([][]string{}, h...), ev)
 					c.Eval()
 					c.Count("transitions", 1)
-					st, clause, detail := c13StateProbe(hist, password)
+					st, clause, detail := c13StateProbe(hist, password, overTLS)
 					if clause != "" {
-						c.Violation("C13|state|"+clause, detail+fmt.Sprintf(" history=%v password=%v", hist, password), c13Case{Kind: "state", History: hist, Password: password})
+						c.Violation("C13|state|"+clause, detail+fmt.Sprintf(" history=%v password=%v tls=%v", hist, password, overTLS), c13Case{Kind: "state", History: hist, Password: password, TLS: overTLS})
 						continue
 					}
-					key := fmt.Sprintf("%v|%d|%v|%v", password, st.db, st.auth, ev[0] == "RECONNECT")
+					key := fmt.Sprintf("%v|%v|%d|%v|%v", password, overTLS, st.db, st.auth, ev[0] == "RECONNECT")
 					// canonical state: (database, authorized); differential check on merge:
 					// the same canonical state reached along another path must answer the probe the same way
 					c.DistinctAdd("states", "state|"+key)
@@ -349,7 +356,7 @@ func c13State(c *fw.Ctx) {
 		if len(frontier) == 0 {
 			c.Count("closed_state_searches", 1)
 		} else {
-			c.Cap("C13 state search (password=%v) did not close within depth 8", password)
+			c.Cap("C13 state search (password=%v tls=%v) did not close within depth 8", password, overTLS)
 		}
 	}
 }
@@ -464,7 +471,7 @@ func c13Replay(raw json.RawMessage) (string, bool, error) {
 		return "", false, err
 	}
 	if cs.Kind == "state" {
-		st, clause, detail := c13StateProbe(cs.History, cs.Password)
+		st, clause, detail := c13StateProbe(cs.History, cs.Password, cs.TLS)
 		return fmt.Sprintf("history=%v password=%v state=%+v clause=%q %s", cs.History, cs.Password, st, clause, detail), clause != "", nil
 	}
 	x := c13Explorer(cs, 0)
@@ -481,7 +488,7 @@ func init() {
 	fw.Register(&fw.Prop{
 		ID:          "C13",
 		Level:       "model_checking",
-		Rule:        "(STATE) breadth-first closure of one connection's state machine over the events {SELECT 0/1/7, SELECT abc, GET, AUTH password, AUTH wrong, disconnect+reconnect}, with and without a configured password, canonical state (database, authorized) observed inside the handler through a probe; (SCHED) two connections through the real Start/accept loop/connection goroutines, each running one of 8 scripts (SELECT/SET/GET, AUTH then SELECT, failing SELECT, failed AUTH after a good one, reconnect) x with/without password = 128 scenarios, every schedule within deviation bound 2 (thorough: three connections, and bound 3); inside every handler call the issuing client's own model (database, authorization, connection object identity, per-connection user data in the sync.Map) is compared with what the handler sees.",
+		Rule:        "(STATE) breadth-first closure of one connection's state machine over the events {SELECT 0/1/7, SELECT abc, GET, AUTH password, AUTH wrong, disconnect+reconnect}, with and without a configured password, over a plain connection and over one that arrived through the TLS port, canonical state (database, authorized) observed inside the handler through a probe; (SCHED) two connections through the real Start/accept loop/connection goroutines, each running one of 8 scripts (SELECT/SET/GET, AUTH then SELECT, failing SELECT, failed AUTH after a good one, reconnect) x with/without password = 128 scenarios, every schedule within deviation bound 2 (thorough: three connections, and bound 3); inside every handler call the issuing client's own model (database, authorization, connection object identity, per-connection user data in the sync.Map) is compared with what the handler sees.",
 		Assumptions: []string{"sequentially consistent interleavings; deviation (delay) bounded", "client counts above 3 are not explored"},
 		Run:         c13Run,
 		Replay:      c13Replay,
